@@ -259,6 +259,8 @@ def fam_G(spec, tier, seed, scratch, stats):
     tag = c09.TAGS_A[ti]
     paths = c09.paths_a(seed) + c09.TS_FORMS
     sizes = c09.SIZES_A if tier == 'thorough' else ['1', '', '-1', '18446744073709551616']
+    # size tokens made of 'digit' characters that are not decimal numbers, and a number too long for int()
+    sizes = list(sizes) + (['\u00b2', '1\u00b2', '\u2460', '\U00010a40', '7' * 5000] if tier == 'thorough' else ['1\u00b2', '7' * 5000])
     nonascii = [['SHA1', '\u00e9\u00e9\u00e9\u00e9'], ['MD5', '9dd4e461268c8034f5c8564e155c67a6', 'SHA1', '\uff11' * 40]]
     tails = ((c09.TAILS_A + [['FOO', '00']]) if tier == 'thorough' else [[], ['MD5', 'd41d8cd9'], ['FOO', '00']]) + nonascii
     extras = c09.EXTRAS_A if tier == 'thorough' else [[]]
@@ -425,6 +427,13 @@ def fam_O(spec, tier, seed, scratch, stats):
         for fmt in ('zip', 'GZ', ''):
             cmds.append((f'update-badformat:{fmt}', ['update', '-f', '-H', 'SHA1', '-c', '0', '-C', fmt, '{root}']))
             cmds.append((f'create-badformat:{fmt}', ['create', '-H', 'SHA1', '-c', '0', '-C', fmt, '{root}']))
+    if name in ('empty_manifest', 'timestamp_in_sub'):
+        # every profile named explicitly, without --hashes: the default profile implies no hash set -> diagnosed
+        for prof in PROFILES:
+            for d in [''] + subdirs[:1]:
+                tgt = '{root}/' + d if d else '{root}'
+                cmds.append((f'update-nohashes:{prof}:{d}', ['update', '-p', prof, tgt]))
+                cmds.append((f'create-nohashes:{prof}:{d}', ['create', '-p', prof, tgt]))
     if name == 'empty_manifest':
         cmds.append(('badoption', ['verify', '--no-such-option', '{root}']))
         cmds.append(('update-nohashes', ['update', '{root}']))
